@@ -133,11 +133,24 @@ def run(tier, seed):
         ps.bad = [b for b in ps.bad if b not in fuel_out]
     if ps.bad and not rep.violations:
         evalprop.report_disagreements(rep, [ps], "debug-eval programs")
+    # thorough: the depth-2 family of the development (9366 programs), decided program by program by the kernel's
+    # evaluator on the generated debugger text (a computation over an enumerated family, reported as such)
+    family2 = None
+    if tier == "thorough" and not rep.violations:
+        pre = ("From PL Require Import Eval.PreludeState Eval.DebuggerProofs.\nLocal Open Scope N_scope.\n"
+               "Definition ok2 (i : nat) : bool := match nth_error programs2 i with Some p => negb (has_body p) || agrees_with [] p | None => true end.\n")
+        total = 9366
+        idx = [f"{i}%nat" for i in range(0, total)]
+        bad2 = coq_check_shards("c20_family2", pre, idx, "ok2", shard_size=300, timeout=3000, case_type="nat")
+        family2 = {"programs": total, "disagreeing_indices": bad2[:20]}
+        if bad2:
+            rep.violation(f"debug-eval and eval differ (in the model, on the generated debugger text) on program number {bad2[0]} of the enumerated depth-2 family",
+                          {"family": "programs2 of coq/Eval/DebuggerProofs.v", "index": bad2[0], "how": "Eval vm_compute in (nth_error programs2 %d)" % bad2[0]})
     rep.evaluations = 2 * len(cases) + len(small)
     rep.nontrivial = counts["attached"]
     rep.samples = [stepped[len(FIXED) + 1]["text"][:300], stepped[len(FIXED) + 2]["text"][:300]]
     rep.coverage.update({"monitor": counts, "direct_outcome_kinds": kinds, "construct_counts": stats, "model_vs_binary_programs": len(small),
-                         "model_out_of_fuel_skipped": len(fuel_out), "exhaustive": False})
+                         "model_out_of_fuel_skipped": len(fuel_out), "exhaustive": False, "kernel_evaluated_depth2_family": family2})
     rep.assumptions = ["a direct evaluation that does not answer within 6 s is skipped (possible non-termination)",
                        "a scripted debugger repeats its last answer for ever; the answers are handed over when the worker blocks in receive (cfg hook), as a real debugger front end does"]
     return rep.finish("make -C coq Properties/C20.vo && coqc <pinned statements>", TRUSTED_BASE_COMMON + ["axioms: none"],
